@@ -881,6 +881,13 @@ static int32_t tls13ParseHandshakeMessage(ssl_t *ssl,
     rc = psParseTlsHandshakeHeader(&pb, &type, &hsMsgLen);
     if (rc == 0)
     {
+        /* Fewer octets are left in the record than a handshake header
+           has. (Returning success here left *bufStart where it was, and
+           the caller, which parses until the record is used up, never
+           came back.) A header split across records is not supported. */
+        psTraceErrr("Truncated handshake message header\n");
+        ssl->err = SSL_ALERT_DECODE_ERROR;
+        rc = MATRIXSSL_ERROR;
         goto exit;
     }
 # ifdef DEBUG_TLS_1_3_DECODE
